@@ -10,6 +10,7 @@ O4  the 6 edge and 3 vertex remaps are the affine bijections sending the referen
     requested one (symbolic point, LRA).
 """
 import itertools
+import math
 import time
 from fractions import Fraction as F
 from math import factorial
@@ -42,6 +43,11 @@ def _fr(x):
 def lp_exactness(ctx, name, moments, family, params, twin_index=None):
     """moments: list of (label, error Fraction e_k = Q(mono_k) - I(mono_k)).
     claim: for all c_k, a_k with a_k >= |c_k| :  sum c_k e_k <= TOL * sum a_k  (and the same for -c)."""
+    if len(moments) > 48:
+        # the claim is additive over monomials: deciding it for every block of 40 coefficients decides it for all of them
+        for j in range(0, len(moments), 40):
+            lp_exactness(ctx, "%s/block%d" % (name, j // 40), moments[j : j + 40], family, params)
+        return
     cs = [z3.Real("c_%s" % lab) for lab, _ in moments]
     As = [z3.Real("a_%s" % lab) for lab, _ in moments]
     hyps = []
@@ -60,7 +66,7 @@ def run(ctx):
     thorough = ctx.thorough
     ctx.bound("triangle orders", "1..20 (all)")
     ctx.bound("gauss orders", "1..30 (all)")
-    ctx.bound("duffy orders (exactness with real tables)", "2..%d" % (5 if thorough else 4))
+    ctx.bound("duffy orders (exactness with real tables)", "2..%d" % (7 if thorough else 5))
     ctx.bound("tolerance", "5e-14 * sum|c| (tables are 16-digit decimals; measured error on the pinned tree <= 4.1e-15)")
     ctx.out("geometric convergence of the singular rules to reference values of the 1/|x-y| integral (analytic limit)")
     ctx.out("duffy_collocation rules (not used by any Galerkin assembler)")
@@ -155,7 +161,7 @@ def run(ctx):
 
     # ---------------- O3: Duffy
     t0 = time.time()
-    nmax = 5 if thorough else 4
+    nmax = 7 if thorough else 5
     for adj, fac in (("coincident", 6), ("edge_adjacent", 5), ("vertex_adjacent", 2)):
         for k in range(1, nmax + 1):
             pt, ps, w = dg.rule(k, adj)
@@ -170,19 +176,33 @@ def run(ctx):
             S0 = [_fr(v) for v in ps[0]]
             S1 = [_fr(v) for v in ps[1]]
             W = [_fr(v) for v in w]
-            pw = lambda L: [[F(1)] * len(L)] + [None] * deg
+            # exact moments in integer arithmetic: every power list is brought to one common denominator
             def powers(L):
                 out = [[F(1)] * len(L)]
                 for d in range(deg):
                     out.append([a * b for a, b in zip(out[-1], L)])
-                return out
+                res = []
+                for lst in out:
+                    D = 1
+                    for v in lst:
+                        D = D * v.denominator // math.gcd(D, v.denominator)
+                    res.append(([int(v * D) for v in lst], D))
+                return res
             pT0, pT1, pS0, pS1 = powers(T0), powers(T1), powers(S0), powers(S1)
+            DW = 1
+            for v in W:
+                DW = DW * v.denominator // math.gcd(DW, v.denominator)
+            WI = [int(v * DW) for v in W]
             mom = []
-            for a, b, c, d in itertools.product(range(deg + 1), repeat=4):
-                if a + b + c + d > deg:
+            for a, b in itertools.product(range(deg + 1), repeat=2):
+                if a + b > deg:
                     continue
-                q = sum(wi * x * y * u * v for wi, x, y, u, v in zip(W, pT0[a], pT1[b], pS0[c], pS1[d]))
-                mom.append(("%d_%d_%d_%d" % (a, b, c, d), q - I2(a, b) * I2(c, d)))
+                wab = [wi * x * y for wi, x, y in zip(WI, pT0[a][0], pT1[b][0])]
+                for c, d in itertools.product(range(deg + 1 - a - b), repeat=2):
+                    if a + b + c + d > deg:
+                        continue
+                    q = F(sum(wv * u * v for wv, u, v in zip(wab, pS0[c][0], pS1[d][0])), DW * pT0[a][1] * pT1[b][1] * pS0[c][1] * pS1[d][1])
+                    mom.append(("%d_%d_%d_%d" % (a, b, c, d), q - I2(a, b) * I2(c, d)))
             lp_exactness(ctx, "O3/exact/%s/%d" % (adj, k), mom, "duffy_exact", {"adj": adj, "order": k})
             ctx.concrete("duffy_exact/%s/%d" % (adj, k), "duffy_exact", {"adj": adj, "order": k})
     # region maps for symbolic 1-D nodes: every point inside the reference triangle
